@@ -293,7 +293,7 @@ func scenarios() []hx.Scenario {
 			a, b := a, b
 			heavy := a.kind == "ED" && b.kind == "ED" || len(a.msg) > 1000 || len(b.msg) > 1000
 			out = append(out, hx.Scenario{
-				Name: fmt.Sprintf("enc %v || %v", a, b), Class: "enc/v1-shared-buffer-pool", ThoroughOnly: heavy && i != j,
+				Name: fmt.Sprintf("enc %v || %v", a, b), Class: "enc/v1-shared-buffer-pool", ThoroughOnly: heavy && i != j, Shards: 8,
 				Opts: mc.Options{Delay: true, MinBound: 2, Bound: 3, MaxSteps: 20000},
 				Mk:   func() *mc.Exec { return mkEnc(a, b) },
 			})
